@@ -31,7 +31,8 @@ REQUIRED_THEOREMS = ["Clikit.Props.C13." + n for n in (
     "help_total", "help_complete", "help_names", "help_inherits", "help_hides", "help_width", "help_width_pages",
     "help_indent_zero", "help_total_indented", "width_ok_decides", "help_width_indented", "help_width_pages_indented",
     "help_wrap_contract", "help_same_page", "help_same_page_partial", "help_same_page_facts", "help_same_page_default",
-    "help_same_page_wired", "help_same_page_wired_decides", "dApp_same_page")]
+    "help_same_page_wired", "help_same_page_wired_decides", "dApp_same_page",
+    "help_page_text", "app_help_run_prints_page", "app_help_command_prints_page", "app_help_command_same_text")]
 TECHNIQUE = ("Lean 4 theorems on a model of ApplicationHelp / CommandHelp / BlockLayout / LabelAlignment / "
              "LabeledParagraph / Paragraph and of the help resolver, parametric in textwrap.wrap (contract: every line fits "
              "the requested width), + differential correspondence of whole pages on generated configurations x widths x "
@@ -65,6 +66,15 @@ LEVEL_TEXT = ("Proved in Lean for EVERY configuration tree, terminal width and w
               "(get_command('help') is the help command, every command of the tree declares the switch as a flag) and "
               "headFreeB app path (the path does not start with a name of the help command); wiredB is decided on every real "
               "tree of the correspondence (c13.wired) and answered true on all of them. "
+              "END TO END (Model/AppHelp.lean helpRun = the run model of C09 composed with the page of its outcome): "
+              "app_help_run_prints_page - for every application, handler assignment, width and line with the help switch "
+              "(hypotheses of C09.app_help_switch + the page of the target exists, its help text has no brace, widthOK) the run "
+              "has status 0, invokes no handler and PRINTS the rendering of the page of the selected command, every line "
+              "shorter than the terminal, listing every own / inherited / global option and argument and every non-hidden "
+              "sub-command (PageLists); app_help_command_prints_page - the same for `help` / `help <path>`; "
+              "app_help_command_same_text - under wiredB / headFreeB and neither run being a version request, `help <path>` "
+              "and `<path> --help|-h` have the same outcome and print the SAME TEXT at every width. The composed model's "
+              "answer (help page, status 0, no handler, text) is what the correspondence compares with the real runs. "
               "The model is tied to the code by comparing whole pages on generated configurations.")
 LEVEL_NOTE = ("Trusted: Lean kernel + standard axioms; the hand-written page/layout/resolver/parser models (modelled, not verified; "
               "compared with the real pages on every generated case); textwrap.wrap, json.dumps, str.format, pastel as "
@@ -85,7 +95,7 @@ RULE = ("gen_tree configurations (depth<=3, fan-out<=3, aliases, default/anonymo
         "width, ansi, indentation)")
 TRUSTED_BASE = [
     "Lean 4.33 kernel; axioms within propext, Classical.choice, Quot.sound (audited per theorem on every run)",
-    "lean/Clikit/Model/Help.lean, Model/HelpWrap.lean, Model/Wrap.lean, Model/Resolver.lean, Model/Parser.lean: hand-written models (modelled, not verified; tied by the correspondence)",
+    "lean/Clikit/Model/Help.lean, Model/HelpWrap.lean, Model/Wrap.lean, Model/Resolver.lean, Model/Parser.lean, Model/App.lean, Model/AppHelp.lean (+ Switches, Run): hand-written models (modelled, not verified; tied by the correspondence)",
     "textwrap.wrap (CPython 3.12) - modelled by wrapH and compared on every text x width used; json.dumps; str.format; pastel's tag removal for <b>, <u>, <c1>",
     "harness/app_common.py, harness/props/c13.py: generators, extraction of the configuration tree from the real objects, oracle",
 ]
@@ -613,6 +623,14 @@ def model_obs(case, answers):
             out["runs"].append({"not_help": True})
         else:
             tg, pg = t["ok"]["target"], t["ok"]["page"]
+            # the COMPOSED model (Model/AppHelp.lean `helpRun` = the run model of C09 + the page of its outcome, the
+            # subject of app_help_run_prints_page / app_help_command_same_text) answers for the run: outcome a help
+            # page, status 0, no handler, and the text - which is what is compared with the real run below
+            run = t["ok"]["run"]
+            if not run["help_page"] or run["status"] != 0 or run["invoked"] != 0 or run["text"] != pg:
+                out["runs"].append({"composed_model_disagrees": run, "page": pg})
+                continue
+            pg = run["text"]
             if "err" in pg:
                 out["runs"].append({"fails": True})
                 continue
